@@ -102,6 +102,14 @@ def expected(pre_items, name, rest):
            "first": False, "limit": None, "tempdir": None, "testcase": None}
     ABBR = ABBR_OPTS
     pre_items = [((ABBR.get(it[0], it[0]),) + tuple(it[1:])) if not isinstance(it, str) else it for it in pre_items]
+    import re as _re
+    flat = []
+    for it in pre_items:        # a cluster of value-less short flags (-vc) means its members (-v -c)
+        if not isinstance(it, str) and len(it) == 1 and _re.fullmatch(r"-[A-Za-z]{2,}", it[0]):
+            flat += [("-" + ch,) for ch in it[0][1:]]
+        else:
+            flat.append(it)
+    pre_items = flat
     for it in pre_items:
         if it[0] in ATOMS:
             cfg["atom"] = ATOMS[it[0]]
@@ -227,6 +235,24 @@ def run(ck: Check):
                     for rest_ in ((), ("t.txt",), ("-x", "t.txt"), ("a", "--min", "4")):
                         cmds.append(((("--testcase", "other.txt", form),) + more, nm, rest_))
                         cmds.append((more + (("--testcase", "other.txt", form),), nm, rest_))
+        # every value-less short flag the parser of THIS tree knows (read from --help), clustered with each atom flag in
+        # both orders (-vc, -cv): a cluster means its members, for the early look at the atom type and the strategy too
+        try:
+            helptext = subprocess.run([sys.executable, "-m", "lithium", "--help"], capture_output=True, text=True, timeout=60,
+                                      env=dict(os.environ, PYTHONPATH=src), check=False).stdout
+        except Exception:  # pylint: disable=broad-except
+            helptext = ""
+        import re as _re
+        shorts = sorted(set(_re.findall(r"^\s+(-[A-Za-z])(?:, --[\w-]+)?(?:\s{2,}|$)", helptext, _re.M)) - {"-h", "-a", "-c", "-j", "-l", "-s"})
+        ck.cov["valueless_short_flags"] = shorts
+        for fl in shorts:
+            for at in ("-c", "-l", "-j", "-s"):
+                if fl == at:
+                    continue
+                for cl in (fl + at[1], at + fl[1]):
+                    cmds.append((((cl,),), "yes.py", ("t.txt",)))
+                    cmds.append((((cl,), ("--strategy", "check-only", "eq")), "yes.py", ("-x", "t.txt")))
+                    cmds.append(((("--strategy", "minimize-around", "sep"), (cl,)), "d/yes.py", ("t.txt",)))
         for v in ("0", "1"):
             cmds.append(((("--max-run-time", v, "sep"),), "yes.py", ("t.txt",)))
             cmds.append(((("--strategy", "minimize-around", "eq"), ("--max-run-time", v, "eq")), "yes.py", ("t.txt",)))
@@ -335,6 +361,8 @@ def run(ck: Check):
                              key=key)
             if any((it if isinstance(it, str) else it[0]) in ABBR_OPTS for it in pre):
                 continue    # abbreviations are outside the model's token domain (full option names): oracle only
+            if any(not isinstance(it, str) and len(it) == 1 and len(it[0]) > 2 and not it[0].startswith("--") for it in pre):
+                continue    # clusters likewise
             cases.append("cli " + " ".join(hexs(a) for a in argv))
             impl.append(f"{res['strategy']} {res['atom']} {res['min']} {res['max']} {res['repeat']} "
                         f"{res['first']} {res['limit']} {res['tempdir']} {res['file']} | "
